@@ -74,11 +74,12 @@ def build(flavour="plain", quiet=True):
     so = os.path.join(out, "_tskit" + suf)
     if os.path.exists(so):
         return out
-    # prune older builds of this flavour
+    # prune older builds of this flavour, keeping the few most recent (other checks may be using them)
     if os.path.isdir(BUILD_ROOT):
-        for d in os.listdir(BUILD_ROOT):
-            if d.startswith(flavour + "-") and d != tag:
-                shutil.rmtree(os.path.join(BUILD_ROOT, d), ignore_errors=True)
+        olds = sorted((d for d in os.listdir(BUILD_ROOT) if d.startswith(flavour + "-") and d != tag and ".tmp" not in d),
+                      key=lambda d: os.path.getmtime(os.path.join(BUILD_ROOT, d)), reverse=True)
+        for d in olds[4:]:
+            shutil.rmtree(os.path.join(BUILD_ROOT, d), ignore_errors=True)
     tmp = out + ".tmp%d" % os.getpid()
     os.makedirs(tmp, exist_ok=True)
     c = os.path.join(REPO, "c")
